@@ -35,14 +35,56 @@ func c12scales(c *Ctx, rule string) {
 	// positions (grid units): irregular, all pairwise distances to the queries distinct
 	pts := [][2]int64{{3, 4}, {19, 7}, {8, 23}, {31, 2}, {14, 15}, {27, 26}, {5, 33}, {36, 17}, {22, 38}, {40, 35}, {11, 9}, {33, 11}, {17, 29}}
 	var queries [][2]int64
-	for x := int64(1); x <= 41; x += 8 {
-		for y := int64(2); y <= 42; y += 8 {
+	step := int64(8)
+	scales := []float64{1.0 / 64, 1, 64}
+	branchings := [][2]int64{{2, 4}}
+	if c.Thorough {
+		// a denser grid of query points, more scales, a second branching and twice the objects
+		step = 4
+		scales = []float64{1.0 / 1024, 1.0 / 64, 0.25, 1, 4, 64, 1024}
+		branchings = [][2]int64{{2, 4}, {3, 6}}
+		for i := int64(0); i < 13; i++ {
+			pts = append(pts, [2]int64{(7*i*i + 3*i + 2) % 43, (11*i*i + 5*i + 6) % 41})
+		}
+	}
+	for x := int64(1); x <= 41; x += step {
+		for y := int64(2); y <= 42; y += step {
 			queries = append(queries, [2]int64{x, y + x%3})
 		}
 	}
+	// queries equidistant from two objects have no single right answer: leave them out
+	{
+		var kept [][2]int64
+		for _, q := range queries {
+			seen := map[int64]bool{}
+			tie := false
+			for _, p := range pts {
+				d := (p[0]-q[0])*(p[0]-q[0]) + (p[1]-q[1])*(p[1]-q[1])
+				if seen[d] {
+					tie = true
+				}
+				seen[d] = true
+			}
+			if !tie {
+				kept = append(kept, q)
+			}
+		}
+		queries = kept
+	}
 	bad, unk := "", ""
 	runs := 0
-	for _, scale := range []float64{1.0 / 64, 1, 64} {
+	type cfg struct {
+		scale float64
+		br    [2]int64
+	}
+	var cfgs []cfg
+	for _, br := range branchings {
+		for _, sc := range scales {
+			cfgs = append(cfgs, cfg{sc, br})
+		}
+	}
+	for _, cf := range cfgs {
+		scale := cf.scale
 		if bad != "" || unk != "" {
 			break
 		}
@@ -62,7 +104,7 @@ func c12scales(c *Ctx, rule string) {
 			}
 			return nil, false
 		}
-		res, why := it.Call(newTree, nil, []oval{oInt(2), oInt(4)}, 0)
+		res, why := it.Call(newTree, nil, []oval{oInt(cf.br[0]), oInt(cf.br[1])}, 0)
 		if why != "" {
 			unk = "NewTree is not interpretable: " + why
 			break
@@ -109,7 +151,7 @@ func c12scales(c *Ctx, rule string) {
 			}
 			sort.Slice(order, func(a, b int) bool { return dist(order[a]) < dist(order[b]) })
 			qv := it.point(cm.ptT, q[0], q[1])
-			at := fmt.Sprintf("grid spacing %g, query (%d, %d)", scale, q[0], q[1])
+			at := fmt.Sprintf("branching (%d,%d), grid spacing %g, query (%d, %d)", cf.br[0], cf.br[1], scale, q[0], q[1])
 			runs++
 			r, why := it.Call(nn, tree, []oval{qv}, 0)
 			if why != "" {
@@ -152,7 +194,7 @@ func c12scales(c *Ctx, rule string) {
 		}
 	}
 	c.Evals(runs)
-	report3(c, rule, "index/rtree#nearest(scale-invariant)", pos, bad, unk, "on a tree of 13 objects built through Insert, NearestNeighbor and NearestNeighbors(4) agree with the linear scan for a grid of 36 query points at grid spacings 1/64, 1 and 64")
+	report3(c, rule, "index/rtree#nearest(scale-invariant)", pos, bad, unk, fmt.Sprintf("on trees of %d objects built through Insert (%d branching parameters), NearestNeighbor and NearestNeighbors(4) agree with the linear scan for %d query points at %d grid spacings from %g to %g", len(pts), len(branchings), len(queries), len(scales), scales[0], scales[len(scales)-1]))
 }
 
 func distOr(i int, d func(int) float64) float64 {
